@@ -185,3 +185,55 @@ Example C21_ex_render_reads :
   map atok_of (fst (read_all (fst (render (fun _ => true) [" "; " "]%byte C21_tree)))) = tree_toks C21_tree /\
   length (tree_toks C21_tree) = 11%nat.
 Proof. vm_compute. split; reflexivity. Qed.
+
+(* ---- Tier T: the same statements about the Go source itself ----
+   Gen/JsonNumGo.v is regenerated from internal/encoding/json/decode_number.go (+ isNotDelim
+   of decode.go) by srcmodel_jsonnum on every check; bytes are list Z (zbytes), ints are Z with
+   explicit int64 wraps, index/slice expressions are checked (Panic), loops run on fuel (Fuel).
+   Domain: inputs shorter than 2^63 bytes (max_len), i.e. every Go slice. *)
+From PB Require Import Base.GoInt Gen.JsonNumGo Json.JsonNumGoP.
+
+Theorem C21_go_isNotDelim_eq_model :
+  forall b, go_isNotDelim (zb b) = is_not_delim b.
+Proof. exact go_isNotDelim_eq_model. Qed.
+Print Assumptions C21_go_isNotDelim_eq_model.
+
+(* the translated parseNumber computes the hand model; in particular no Panic, no Fuel *)
+Theorem C21_go_parseNumber_eq_model :
+  forall input, (Z.of_nat (length input) < max_len)%Z ->
+    go_parseNumber (zbytes input) = Val (zres (parse_number input)).
+Proof. exact go_parseNumber_eq_model. Qed.
+Print Assumptions C21_go_parseNumber_eq_model.
+
+(* the translated source is exactly the RFC 8259 number recogniser followed by the delimiter
+   rule, and returns the length of the number *)
+Theorem C21_go_parseNumber_is_rfc_number :
+  forall input, (Z.of_nat (length input) < max_len)%Z ->
+    go_parseNumber (zbytes input) =
+    Val (match strip_number input with
+         | Some r => if delim_or_end r then (Z.of_nat (length input - length r), true) else (0%Z, false)
+         | None => (0%Z, false)
+         end).
+Proof. exact go_parseNumber_is_rfc_number. Qed.
+Print Assumptions C21_go_parseNumber_is_rfc_number.
+
+Theorem C21_go_parseNumber_sound :
+  forall input n, (Z.of_nat (length input) < max_len)%Z ->
+    go_parseNumber (zbytes input) = Val (n, true) ->
+    rfc_number (firstn (Z.to_nat n) input) /\ delim_or_end (skipn (Z.to_nat n) input) = true /\
+    (0 < n <= Z.of_nat (length input))%Z.
+Proof. exact go_parseNumber_sound. Qed.
+Print Assumptions C21_go_parseNumber_sound.
+
+Theorem C21_go_parseNumber_complete :
+  forall num r, (Z.of_nat (length (num ++ r)) < max_len)%Z ->
+    rfc_number num -> delim_or_end r = true ->
+    go_parseNumber (zbytes (num ++ r)) = Val (Z.of_nat (length num), true).
+Proof. exact go_parseNumber_complete. Qed.
+Print Assumptions C21_go_parseNumber_complete.
+
+Example C21_ex_go_parseNumber :
+  go_parseNumber (zbytes ["-"; "1"; "."; "5"; "e"; "+"; "3"; "]"]%byte) = Val (7%Z, true) /\
+  go_parseNumber (zbytes ["1"; "e"; ","]%byte) = Val (0%Z, false) /\
+  go_parseNumber (zbytes ["0"; "1"]%byte) = Val (0%Z, false).
+Proof. vm_compute. repeat split. Qed.
